@@ -56,10 +56,101 @@ def role_of_panic(o):
 def run(ctx):
     forms(ctx)
     tables(ctx)
+    dispatch_purity(ctx)
     handlers(ctx)
     imm_table(ctx)
     shift_amount(ctx)
     ring(ctx)
+
+
+def dispatch_purity(ctx):
+    """C01.dispatch: for every mnemonic the top-level function is interpreted with `i.mnemonic()` as that constant: every
+    path makes exactly one call -- to the dispatcher bound to it --, returns that call's result and touches no machine
+    state itself (the step model treats the top-level function as one primitive, so code in front of its `match` would
+    escape every analysis). At the second level the handler analyses themselves start at the mnemonic's dispatcher with
+    `i.code()` as the constant, so whatever a dispatcher does around the handler call is judged as part of the
+    instruction; here only the binding is checked: every success path calls exactly the handler bound to the Code."""
+    ck, facts, O, D, hm = ctx.check, ctx.facts, ctx.oracle, ctx.dispatch, ctx.hmodel
+    handlers_ = {d["handler"] for d in D.codes.values() if d["handler"]}
+    dispatchers = {d for d in D.mnemonics.values() if d}
+    EFFECTS = ("reg_read", "reg_write", "mem_read", "mem_write", "set_flags", "store", "mutcall", "operand", "mem_addr", "trace")
+
+    def judge(outs, expect, what):
+        bad = None
+        for o in outs:
+            if o.kind == "panic":
+                if o.cls not in ("D", "DA"):
+                    bad = bad or "%s abort before dispatch (%s)" % (o.cls, o.msg)
+                continue
+            if o.kind != "return":
+                continue
+            calls = [e for e in o.path.events if e[0] == "dispatch_call"]
+            eff = [e for e in o.path.events if e[0] in EFFECTS]
+            if eff and what != "dispatcher":
+                bad = bad or "the %s itself touches machine state (%s)" % (what, eff[0][0])
+            if what == "dispatcher":
+                # early exits around the handler are the handler analyses' business; the binding must be right
+                if len(calls) > 1 or (calls and calls[0][1] != expect):
+                    bad = bad or "dispatches to %s" % ", ".join(c[1].rsplit("::", 1)[1] for c in calls)
+                continue
+            if len(calls) != 1:
+                bad = bad or "a path returns after %d dispatch calls" % len(calls)
+            elif calls[0][1] != expect:
+                bad = bad or "dispatches to %s" % calls[0][1].rsplit("::", 1)[1]
+            elif o.value != calls[0][2]:
+                bad = bad or "does not return the result of the call it dispatched to"
+        return bad
+    n = 0
+    for code in sorted(D.implemented()):
+        d = D.codes[code]
+        if not hm.producible(code):
+            continue
+        db = facts.bodies[d["dispatcher"]]
+        shape = hm.shapes(code)[0]
+        pr = P.HandlerPrims(facts, ctx.roles, shape[2], code=code, mnemonic=d["mnemonic"], opkinds=shape[1])
+
+        def icpt(I, path, frame, t, name, args, pr=pr):
+            if name in handlers_:
+                p2 = path.copy()
+                k = len(path.events)
+                v1, v2 = A.OK(("handler_ok", k)), A.ERR(("handler_err", k))
+                path.events.append(("dispatch_call", name, v1))
+                p2.events.append(("dispatch_call", name, v2))
+                return [(v1, path), (v2, p2)]
+            return pr.intercept(I, path, frame, t, name, args)
+        I = A.Interp(facts, intercept=icpt)
+        outs = list(I.run(db, [P.self_ref(), P.INSTR], A.Path()))
+        bad = judge(outs, d["handler"], "dispatcher")
+        n += 1
+        if bad:
+            ck.violation("C01.dispatch", "Code=%s" % code, bad, where="%s:%d (%s)" % (db["span"][0], db["span"][1], db["name"]),
+                         what="work done outside the handler: the instruction's behaviour is no longer what its handler computes")
+        else:
+            ck.ok("C01.dispatch", "Code=%s" % code)
+    top = D.top
+    for mname, disp in sorted(D.mnemonics.items()):
+        if not disp or disp not in facts.bodies:
+            continue
+        pr = P.HandlerPrims(facts, ctx.roles, (), code=None, mnemonic=mname, opkinds=())
+
+        def icpt2(I, path, frame, t, name, args, pr=pr):
+            if name in dispatchers:
+                p2 = path.copy()
+                k = len(path.events)
+                v1, v2 = A.OK(("handler_ok", k)), A.ERR(("handler_err", k))
+                path.events.append(("dispatch_call", name, v1))
+                p2.events.append(("dispatch_call", name, v2))
+                return [(v1, path), (v2, p2)]
+            return pr.intercept(I, path, frame, t, name, args)
+        I = A.Interp(facts, intercept=icpt2)
+        outs = list(I.run(top, [P.self_ref(), P.INSTR], A.Path()))
+        bad = judge(outs, disp, "top-level dispatcher")
+        n += 1
+        if bad:
+            ck.violation("C01.dispatch", "Mnemonic=%s" % mname, bad, where="%s:%d (%s)" % (top["span"][0], top["span"][1], top["name"]))
+        else:
+            ck.ok("C01.dispatch", "Mnemonic=%s" % mname)
+    ck.floor("dispatch instances", n, 360)
 
 
 # architectural results of the ring-operation forms, modulo 2^K (d = destination operand, s = source, c = carry in)
@@ -454,7 +545,9 @@ def handlers(ctx):
                             acc_bad = acc_bad or "%s at a non-operand address %s" % (e[0], A.show(addr))
                 if acc and acc[0] in MUST_WRITE_ACC and not wrote_op0 and not is_cf and oc["mnemonic"] not in STACK_MNEMONICS:
                     # conditional forms are judged per flag class below
-                    if oc["cc"] == "None" and not write_elided_unchanged(facts, o, label, KIND_BITS.get(oc["kinds"][0])):
+                    swept = oc["mnemonic"] in ("Shl", "Shr", "Sar", "Sal") and ("imm8" in oc["kinds"] or "cl" in oc["kinds"])
+                    # counted shifts: whether a path may skip the write depends on the count class -> C01.count (all 256 counts)
+                    if oc["cc"] == "None" and not swept and not write_elided_unchanged(facts, o, label, KIND_BITS.get(oc["kinds"][0])):
                         acc_bad = acc_bad or "operand 0 not written on a success path, architecture access %s" % acc[0]
                 # implicit registers that must be written
                 if oc["mnemonic"] not in STACK_MNEMONICS and not is_cf:
